@@ -50,3 +50,12 @@ PROPS['C07'] = {
     'panics_count': True,
     'campaigns': [camp('malformed', 16, 200), camp('mixed', 16, 200), camp('staking', 8, 100), camp('orders', 8, 100)],
 }
+
+PROPS['C09'] = {'level': 'proof', 'theorems': [], 'campaigns': [camp('mixed', 16, 200), camp('staking', 8, 100), camp('orders', 8, 100)]}
+PROPS['C13'] = {'level': 'proof', 'theorems': [], 'campaigns': [camp('orders', 24, 200)]}
+PROPS['C14'] = {'level': 'proof', 'theorems': [], 'campaigns': [camp('orders', 24, 200)]}
+PROPS['C16'] = {'level': 'proof', 'theorems': [], 'campaigns': [camp('staking', 24, 200), camp('ledger', 8, 100)]}
+PROPS['C17'] = {'level': 'proof', 'theorems': [], 'campaigns': [camp('staking', 24, 200)]}
+PROPS['C18'] = {'level': 'proof', 'theorems': [], 'campaigns': [camp('staking', 24, 200), camp('ledger', 8, 100)]}
+PROPS['C19'] = {'level': 'proof', 'theorems': [], 'campaigns': [camp('staking', 24, 200), camp('ledger', 8, 100)]}
+PROPS['C20'] = {'level': 'proof', 'theorems': [], 'campaigns': [camp('staking', 24, 200)]}
